@@ -1,4 +1,4 @@
-use libsodium_rs::{crypto_sign, random};
+use libsodium_rs::{crypto_core, crypto_sign, random};
 use paseto_core::PasetoError;
 use paseto_core::key::HasKey;
 use paseto_core::pae::pre_auth_encode;
@@ -10,6 +10,12 @@ impl HasKey<Public> for V4 {
     type Key = PublicKey;
 
     fn decode(bytes: &[u8]) -> Result<PublicKey, PasetoError> {
+        // The bytes must decode to a point of the curve, not just be 32 bytes. libsodium's point
+        // addition fails exactly for inputs that are not on the curve (`is_valid_point` would also
+        // reject small-order points such as the all-zero test vector key).
+        if bytes.len() != 32 || crypto_core::ed25519::add(bytes, bytes).is_err() {
+            return Err(PasetoError::InvalidKey);
+        }
         crypto_sign::PublicKey::from_bytes(bytes)
             .map(PublicKey)
             .map_err(|_| PasetoError::InvalidKey)
@@ -23,9 +29,18 @@ impl HasKey<Secret> for V4 {
     type Key = SecretKey;
 
     fn decode(bytes: &[u8]) -> Result<SecretKey, PasetoError> {
-        crypto_sign::SecretKey::from_bytes(bytes)
-            .map(SecretKey)
-            .map_err(|_| PasetoError::InvalidKey)
+        let key = crypto_sign::SecretKey::from_bytes(bytes).map_err(|_| PasetoError::InvalidKey)?;
+
+        // the second half must be the public key of the seed in the first half
+        let (seed, public_key) = bytes
+            .split_first_chunk::<32>()
+            .ok_or(PasetoError::InvalidKey)?;
+        let expected = crypto_sign::keypair_from_seed(seed).map_err(|_| PasetoError::InvalidKey)?;
+        if expected.public_key.as_bytes()[..] != *public_key {
+            return Err(PasetoError::InvalidKey);
+        }
+
+        Ok(SecretKey(key))
     }
     fn encode(key: &SecretKey) -> Box<[u8]> {
         key.0.as_bytes().to_vec().into_boxed_slice()
